@@ -178,6 +178,10 @@ func ruleEUnits(p *Program, r *Reporter) {
 							r.OK(x.Pos(), key, "coarse guard: a code-point position beyond the byte length is certainly beyond the string; its true edge exits or clamps")
 							continue
 						}
+						if (x.Op == token.EQL || x.Op == token.NEQ) && sameStringCountAndLen(x.X, x.Y) != nil {
+							r.OK(x.Pos(), key, "the code-point count of a string compared for equality with its own byte length: the all-single-byte (ASCII) test")
+							continue
+						}
 						r.Bad(instrPos(x), key, fmt.Sprintf("mixes %s with %s in `%s %s %s`: positions and widths of the language are code points, not bytes", ux, uy, describeAddr(x.X), x.Op, describeAddr(x.Y)))
 						continue
 					}
@@ -229,6 +233,8 @@ func ruleEUnits(p *Program, r *Reporter) {
 						key := fmt.Sprintf("%s string-cut#%d", name, n)
 						u := a.unit(idx)
 						switch {
+						case u == uLogic && singleByteString(b, x.X):
+							r.OK(x.Pos(), key, "cut at a code-point count under the fact that the string's code-point count equals its byte length (every character is one byte)")
 						case u == uLogic:
 							r.Bad(instrPos(x), key, "a string is cut at a code-point count ("+describeAddr(idx)+") used as a byte offset")
 						case u == uMixed:
@@ -398,4 +404,43 @@ func ruleEDecodeAdvance(p *Program, r *Reporter) {
 			}
 		}
 	}
+}
+
+
+// sameStringCountAndLen: one side is utf8.RuneCountInString(s) and the other len(s) of the same string s; returns s.
+func sameStringCountAndLen(x, y ssa.Value) ssa.Value {
+	count := func(v ssa.Value) ssa.Value {
+		c, ok := v.(*ssa.Call)
+		if ok && calleeFullName(&c.Call) == "unicode/utf8.RuneCountInString" && len(c.Call.Args) == 1 {
+			return c.Call.Args[0]
+		}
+		return nil
+	}
+	length := func(v ssa.Value) ssa.Value {
+		c, ok := v.(*ssa.Call)
+		if ok && builtinName(&c.Call) == "len" && len(c.Call.Args) == 1 {
+			return c.Call.Args[0]
+		}
+		return nil
+	}
+	for _, pr := range [][2]ssa.Value{{x, y}, {y, x}} {
+		if s1, s2 := count(pr[0]), length(pr[1]); s1 != nil && s2 != nil && sameValue(s1, s2) {
+			return s1
+		}
+	}
+	return nil
+}
+
+// singleByteString: a dominating fact says RuneCountInString(s) == len(s) for this string.
+func singleByteString(b *ssa.BasicBlock, s ssa.Value) bool {
+	for _, f := range blockFacts(b) {
+		op, l, rr, ok := f.rel()
+		if !ok || op != token.EQL {
+			continue
+		}
+		if got := sameStringCountAndLen(l, rr); got != nil && sameValue(got, s) {
+			return true
+		}
+	}
+	return false
 }
